@@ -24,12 +24,16 @@ type layoutOpt struct {
 	leading string
 }
 
-var faultLayouts = []layoutOpt{{"plain", ""}, {"shifted", "// header line 1\n\n// header line 3\n"}}
+var faultLayouts = []layoutOpt{{"plain", ""}, {"shifted", "// header line 1\n\n// header line 3\n"}, {"one line", ""}}
 
 // render prints p and returns the text plus the line span of the declaration identified by key.
 func renderWithSpan(p *dsl.Program, key dsl.SpanKey, lay layoutOpt) (string, [2]int, bool) {
 	toks, sp := p.TokensSpans()
 	gaps := dsl.Gaps(toks, dsl.Pretty)
+	if lay.name == "one line" {
+		// everything on one source line: whatever groups or orders declarations by their line gets ties
+		gaps = dsl.Gaps(toks, dsl.OneLine)
+	}
 	gaps[0] = lay.leading + gaps[0]
 	lines := dsl.TokenLines(toks, gaps)
 	r, ok := sp[key]
@@ -64,7 +68,7 @@ func faultCorpus(ctx *core.Ctx) []Fault {
 	var out []Fault
 	for _, base := range faultBasePrograms(ctx) {
 		for _, lay := range faultLayouts {
-			if lay.name == "shifted" && !ctx.Thorough() && !strings.HasPrefix(base.Name, "P5") && !strings.HasPrefix(base.Name, "P6") {
+			if lay.name != "plain" && !ctx.Thorough() && !strings.HasPrefix(base.Name, "P5") && !strings.HasPrefix(base.Name, "P6") {
 				continue
 			}
 			out = append(out, faultsOf(base, lay)...)
